@@ -142,7 +142,8 @@ def random_plan(seed, idx):
         eps = None
         w = r.random()
         if w < 0.1:
-            eps = [ep(p), ep(p, 4001)]
+            # two endpoints, in either order: the order of the options is not part of a subscription's identity
+            eps = [ep(p), ep(p, 4001)] if r.random() < 0.5 else [ep(p, 4001), ep(p)]
         elif w < 0.15:
             eps = [["ep", 6, "fd00::%d" % (11 + p), 17, 4000]]
         if k < 0.45:
